@@ -222,7 +222,7 @@ def normalise(v):
 def pairs_for(name, rng, tier, search):
     """(kind, x, y, kwds) for one public name; fixed sizes per tier."""
     s = R.SPEC[name]
-    n = 12 if tier == "quick" else 96
+    n = 12 if tier == "quick" else 192
     if search:
         n *= 3
     exh = 4 if tier == "quick" else 5
@@ -253,7 +253,7 @@ def pairs_for(name, rng, tier, search):
         out.append((kind, x, y, kw))
     # every discrete option of every metric argument, on a few generic pairs each
     base = [(k, x, y) for (k, x, y, _) in out if k in ("normal", "uniform-zeros", "counts", "smallint")]
-    for i in range(6 if tier == "quick" else 24):
+    for i in range(6 if tier == "quick" else 48):
         if not base:
             break
         k, x, y = base[(i * 37) % len(base)]
